@@ -7,7 +7,7 @@ import itertools
 
 from mc import pool, wire, refms, seams
 
-STEPS = ["GREETING", "STARTTLS", "TLSCAPS", "AUTHRESULT"]
+STEPS = ["GREETING", "STARTTLS", "TLSCAPS", "AUTHSTART", "AUTHRESULT"]  # AUTHSTART: the AUTHENTICATE command itself is answered, before any challenge
 ACTIONS = ["NO", "BYE", "SILENCE", "EOF", "GARBAGE", "BYE-REFERRAL"]
 SCRIPT_VERBS = refms.SCRIPT_VERBS
 
@@ -164,7 +164,7 @@ def run_history(capset, starttls, faults1, wrap_fails, pre, post, second, faults
 
 
 def fault_sets(tier, starttls):
-    steps = STEPS if starttls else ["GREETING", "AUTHRESULT"]
+    steps = STEPS if starttls else ["GREETING", "AUTHSTART", "AUTHRESULT"]
     single = [((st, 0, a),) for st in steps for a in ACTIONS]
     out = [()] + single
     out += [a + b for a, b in itertools.combinations(single, 2) if a[0][0] != b[0][0]]
